@@ -110,6 +110,18 @@ def run(ctx):
             v.broken_tie("%s differs from model under policy %s: impl %s model %s" % (kind, pol, io[:100], mo[:100]),
                          {"port": "pure", "script": [lines[k][:400]], "impl": [io[:400]], "model": [mo[:400]]})
     samples = [{"op": lines[i][:100], "impl": impl[i][:100]} for i in (7, len(lines) // 2, len(lines) - 1) if i < len(impl)]
+    # the connection-level clause on the real client: every connection's byte log frames as whole packets (plus at most one
+    # incomplete tail), with writers stalled inside conn.Write - also between header and payload of a vectored write - while the
+    # read routine has acknowledgements to send, short writes and errors in requests, resends and acknowledgements
+    from . import sesscheck as SC
+    prof = {"publish": 10, "ack": 6, "inbound": 8, "connect": 8, "fault": 10, "restart": 0.3, "call": 10, "response": 4,
+            "hostile": 0.5, "close": 0.3, "blocked": 14, "midpacket": 0.5, "bigbuf": 0.05}
+    smon = lambda tr, sc: SC.mon_sanity(tr) + [h for h in SC.mon_wire(tr) if h[0] in ("wire:malformed", "wire:after-disconnect")]
+    skeep = lambda l: l.startswith(("ev w ", "ret ", "blocked", "rs "))
+    _, sstats, shist, ssamples, snd = SC.run_property(ctx, MODULE, prof, 200, 4000, [smon], skeep, length=(8, 26), verdict=v)
+    stats["session_scripts"] = sstats["scripts"]
+    stats["session_unsupported"] = sstats["unsupported"]
+    stats["session_ops_by_kind"] = shist
     ev = stats["wt"] + stats["wb"]
     cov = C.proof_coverage(ctx, {
         "evaluations": ev, "distinct_nontrivial": len(distinct),
@@ -119,4 +131,4 @@ def run(ctx):
     })
     return v.finish(cov, ["net.Conn.Write accepts a prefix of what it is given (A-conn)",
                           "net.Buffers.WriteTo modelled for the plain io.Writer path (compared every run through the real stdlib)",
-                          "connection-level clause under concurrency is the Sync model's subject (see DESIGN.md)"])
+                          "connection-level clause under concurrency: one writer at a time is a Sync theorem (A-atomic); on the real client it is searched with writers parked inside conn.Write, not proved"])
